@@ -47,7 +47,7 @@ Definition pair_set {A} (d : dir) (x : A) (p : A * A) : A * A :=
 Record conn := mkconn {
   error : option N;                 (* the stored ConnectionError *)
   connected : bool;
-  on_connected : option waker;
+  on_connected : list waker;       (* tasks in Connecting::poll / accepted_0rtt *)
   on_handshake_data : option waker;
   datagram_received : list waker;
   datagrams_unblocked : list waker;
@@ -59,13 +59,13 @@ Record conn := mkconn {
 }.
 
 Definition conn0 : conn :=
-  mkconn None false None None [] [] ([], []) ([], []) [] [] [].
+  mkconn None false [] None [] [] ([], []) ([], []) [] [] [].
 
 Definition opt_wakers (o : option waker) : list waker := match o with Some w => [w] | None => [] end.
 
 (* every waker currently registered anywhere *)
 Definition registered (c : conn) : list waker :=
-  opt_wakers (on_handshake_data c) ++ opt_wakers (on_connected c) ++
+  opt_wakers (on_handshake_data c) ++ on_connected c ++
   datagram_received c ++ datagrams_unblocked c ++
   fst (stream_opened c) ++ snd (stream_opened c) ++
   fst (stream_available c) ++ snd (stream_available c) ++
@@ -75,7 +75,7 @@ Definition registered (c : conn) : list waker :=
 Definition E_LOCALLY_CLOSED : N := 7.
 
 Definition terminate (c : conn) (reason : N) : conn * list waker :=
-  (mkconn (Some reason) false None None [] [] ([], []) ([], []) [] [] [],
+  (mkconn (Some reason) false [] None [] [] ([], []) ([], []) [] [] [],
    registered c).
 
 (* wake_stream / wake_all_streams *)
@@ -110,14 +110,14 @@ Definition handle_event (c : conn) (e : qevent) : conn * list waker :=
             (writable c) (readable c) (stopped c),
      opt_wakers (on_handshake_data c))
   | QConnected rejected =>
-    let c1 := mkconn (error c) true None (on_handshake_data c) (datagram_received c)
+    let c1 := mkconn (error c) true [] (on_handshake_data c) (datagram_received c)
                      (datagrams_unblocked c) (stream_opened c) (stream_available c)
                      (writable c) (readable c) (stopped c) in
     if rejected then
       (set_tables c1 [] [] [],
-       opt_wakers (on_connected c) ++ sm_wakers (writable c) ++ sm_wakers (readable c)
+       on_connected c ++ sm_wakers (writable c) ++ sm_wakers (readable c)
          ++ sm_wakers (stopped c))
-    else (c1, opt_wakers (on_connected c))
+    else (c1, on_connected c)
   | QConnectionLost reason => terminate c reason
   | QReadable k =>
     let '(m, ws) := wake_stream k (readable c) in (set_tables c (writable c) m (stopped c), ws)
@@ -177,7 +177,10 @@ Inductive presult :=
 Definition reg_waiter (c : conn) (x : waiter) (w : waker) : conn :=
   match x with
   | WConnecting =>
-    mkconn (error c) (connected c) (Some w) (on_handshake_data c) (datagram_received c)
+    (* `if !on_connected.iter().any(|x| x.will_wake(w)) { push_back(w) }` *)
+    mkconn (error c) (connected c)
+           (if existsb (Nat.eqb w) (on_connected c) then on_connected c else on_connected c ++ [w])
+           (on_handshake_data c) (datagram_received c)
            (datagrams_unblocked c) (stream_opened c) (stream_available c)
            (writable c) (readable c) (stopped c)
   | WHandshakeData =>
@@ -272,7 +275,7 @@ Fixpoint run (c : conn) (ls : list label) : conn * list output :=
 (* the waker a waiter has in the table, if any *)
 Definition lookup (c : conn) (x : waiter) : list waker :=
   match x with
-  | WConnecting => opt_wakers (on_connected c)
+  | WConnecting => on_connected c
   | WHandshakeData => opt_wakers (on_handshake_data c)
   | WRecvDatagram => datagram_received c
   | WSendDatagram => datagrams_unblocked c
@@ -303,7 +306,7 @@ Definition matches (e : qevent) (x : waiter) : bool :=
 (* table sizes, in the order of compio_quic::verif::Event::sizes *)
 Definition b2n (b : bool) : N := if b then 1%N else 0%N.
 Definition sizes (c : conn) : list N :=
-  [ b2n (match on_connected c with Some _ => true | None => false end);
+  [ NN (length (on_connected c));
     b2n (match on_handshake_data c with Some _ => true | None => false end);
     NN (length (datagram_received c)); NN (length (datagrams_unblocked c));
     NN (length (fst (stream_opened c))); NN (length (snd (stream_opened c)));
